@@ -44,17 +44,18 @@ CONV = {
     "fk": {"fk": "fk_%(table_name)s_%(column_0_name)s_%(referred_table_name)s"},
     "pk": {"pk": "pk_%(table_name)s"},
     "explicit": {},
+    "explicituq": {},
 }
 
 
-def _dialect(name, max_len=None, label_length=None):
+def _dialect(name, max_len=None, label_length=None, ix=0, ck=0):
     from sqlalchemy.dialects import mssql, mysql, oracle, postgresql, sqlite
     cls = dict(sqlite=sqlite.dialect, postgresql=postgresql.dialect, mysql=mysql.dialect, mssql=mssql.dialect, oracle=oracle.dialect)[name]
     d = cls(label_length=label_length) if label_length else cls()
     if max_len:
         d.max_identifier_length = max_len
-        d.max_index_name_length = None
-        d.max_constraint_name_length = None
+        d.max_index_name_length = ix or None
+        d.max_constraint_name_length = ck or None
     return d
 
 
@@ -72,6 +73,11 @@ def build_ddl(case):
     if tmpl == "explicit":
         t = sa.Table("tt", md, sa.Column("id", sa.Integer, primary_key=True), sa.Column("v", sa.Integer))
         return md, t, sa.Index("e" * case["lt"], t.c.v), "index"
+    if tmpl == "explicituq":
+        t = sa.Table("tt", md, sa.Column("id", sa.Integer, primary_key=True), sa.Column("v", sa.Integer))
+        obj = sa.UniqueConstraint(t.c.v, name="e" * case["lt"])
+        t.append_constraint(obj)
+        return md, t, obj, "uq"
     cols = [sa.Column("id", sa.Integer, primary_key=(tmpl != "pk")), sa.Column(c1, sa.Integer, primary_key=(tmpl == "pk")), sa.Column(c2, sa.Integer)]
     t = sa.Table(tn, md, *cols)
     if tmpl in ("ix", "ixlabel"):
@@ -114,13 +120,15 @@ def replay_ddl(chk, cases, rng):
         want = name if kind == "ok" else (text + "_" + util.md5_hex(name)[-4:]) if kind == "trunc" else None
         if kind != "ok":
             nontriv += 1
-        sig = dict(spec="LexersTrunc", mode="ddl", tmpl=case["tmpl"], kind=kind, max=case["max"],
-                   over=len(name) - case["max"] if len(name) > case["max"] else 0)
+        eff = case["eff"]           # the limit of this kind of name: index / constraint limit, else the identifier limit
+        sig = dict(spec="LexersTrunc", mode="ddl", tmpl=case["tmpl"], kind=kind, max=case["max"], ixmax=case["ixmax"], ckmax=case["ckmax"],
+                   over=len(name) - eff if len(name) > eff else 0,
+                   explicit_between=case["tmpl"] in ("explicit", "explicituq") and eff < len(name) <= case["max"])
         results = set()
         for dn in DIALECTS:
             for attempt in (0, 1):            # fresh objects each time: the name is a function of its inputs
                 md, t, obj, what = build_ddl(case)
-                d = _dialect(dn, max_len=case["max"])
+                d = _dialect(dn, max_len=case["max"], ix=case["ixmax"], ck=case["ckmax"])
                 p = d.identifier_preparer
                 n += 1
                 if str(obj.name) != name and what != "pk" or (what == "pk" and str(obj.name) != name):
@@ -145,11 +153,11 @@ def replay_ddl(chk, cases, rng):
                 # the rendered name is quoted when the dialect requires it (Oracle: a leading underscore); quoting itself is C06's subject
                 if raw != want or (want is not None and got != p.quote(want)):
                     chk.violation(dict(sig, action="format_constraint", dialect=dn),
-                                  "%s max_identifier_length=%d: %r (%d chars) rendered as %r, specification %r"
-                                  % (dn, case["max"], name, len(name), got, want), dict(case=case, got=got, want=want, dialect=dn))
-                if raw is not None and len(raw) > case["max"]:
+                                  "%s limits identifier/index/constraint=%d/%d/%d: %s name %r (%d chars) rendered as %r, specification %r"
+                                  % (dn, case["max"], case["ixmax"], case["ckmax"], what, name, len(name), got, want), dict(case=case, got=got, want=want, dialect=dn))
+                if raw is not None and len(raw) > eff:
                     chk.violation(dict(sig, action="bounded", dialect=dn), "%s: rendered name %r has %d characters, limit %d"
-                                  % (dn, raw, len(raw), case["max"]), dict(case=case, got=raw))
+                                  % (dn, raw, len(raw), eff), dict(case=case, got=raw))
                 if want is not None and ddl is not None and not (" %s " % got in ddl or " %s\n" % got in ddl or " %s(" % got in ddl):
                     chk.violation(dict(sig, action="ddl_text", dialect=dn), "%s: DDL does not carry the name %r: %s" % (dn, want, " ".join(ddl.split())[:200]),
                                   dict(case=case, ddl=ddl))
@@ -157,11 +165,13 @@ def replay_ddl(chk, cases, rng):
         if len(results) != 1:
             chk.violation(dict(sig, action="same_on_every_dialect"), "rendered differently: %r" % sorted(map(str, results)), dict(case=case))
         # ---- execution on SQLite with this max_identifier_length
-        eng = engines.get(case["max"])
+        ekey = (case["max"], case["ixmax"], case["ckmax"])
+        eng = engines.get(ekey)
         if eng is None:
-            eng = engines[case["max"]] = sa.create_engine("sqlite:///" + os.path.join(chk.work, "c21_%d.db" % case["max"]),
-                                                            max_identifier_length=case["max"])
-        if case["tmpl"] != "explicit" and (case["lt"] > case["max"] or case["lr"] > case["max"]):
+            eng = engines[ekey] = sa.create_engine("sqlite:///" + os.path.join(chk.work, "c21_%d_%d_%d.db" % ekey), max_identifier_length=case["max"])
+            eng.dialect.max_index_name_length = case["ixmax"] or None
+            eng.dialect.max_constraint_name_length = case["ckmax"] or None
+        if case["tmpl"] not in ("explicit", "explicituq") and (case["lt"] > case["max"] or case["lr"] > case["max"]):
             continue            # create_all refuses the TABLE name (an explicit identifier, outside this property)
         md, t, obj, what = build_ddl(case)
         try:
@@ -192,7 +202,7 @@ def replay_ddl(chk, cases, rng):
         else:
             _wipe(eng)
         if kind == "trunc" and len(samples) < 3:
-            samples.append(dict(case={k: case[k] for k in ("tmpl", "lt", "lc", "lr", "max")}, name=name, rendered=want))
+            samples.append(dict(case={k: case[k] for k in ("tmpl", "lt", "lc", "lr", "max", "ixmax", "ckmax")}, name=name, rendered=want))
     for e in engines.values():
         e.dispose()
     return n, nontriv, nexec, samples
@@ -381,14 +391,21 @@ def main(chk):
     warnings.filterwarnings("ignore", category=sa.exc.SAWarning)
     rng = random.Random(chk.seed)
     name_lens = {1, 3, 9, 14} if chk.quick else {1, 3, 9, 14, 27, 40}
-    consts = dict(MaxIdLens={8, 12, 30}, NameLens=name_lens, LabelLens={6, 8, 12}, MaxItems=2 if chk.quick else 3)
+    def lim(idmax, ix=0, ck=0):
+        return idmax * 1000000 + ix * 1000 + ck
+    # (identifier, index, constraint) limits: the identifier limit alone; then a tighter index limit, a tighter constraint limit, both in
+    # either order (MySQL style: 255 / 64 / 64 scaled down) - so that using the wrong one of the three is visible
+    limits = {lim(8), lim(12), lim(30), lim(30, 10, 0), lim(30, 0, 10), lim(30, 10, 24), lim(30, 24, 10)}
+    if not chk.quick:
+        limits |= {lim(128, 40, 24), lim(128, 0, 24), lim(64, 12, 12), lim(12, 8, 0), lim(12, 0, 8)}
+    consts = dict(MaxIdLens=limits, NameLens=name_lens, LabelLens={6, 8, 12}, MaxItems=2 if chk.quick else 3)
     runs = []
     # ---- ddl
     cfg1 = tlc.cfg(constants=dict(consts, Mode=tlc.q("ddl")), invariants=["DdlBounded", "DdlFaithful"])
     cfg2 = tlc.cfg(constants=dict(consts, Mode=tlc.q("stmt")), invariants=["Bounded", "Distinct", "SameElementSameName", "KeptWhenShort"],
                    properties=["Stable"])
     # non-vacuity: below the supported range the bound must break in the specification
-    cfg3 = tlc.cfg(constants=dict(consts, Mode=tlc.q("ddl"), MaxIdLens={6}), invariants=["DdlBounded"])
+    cfg3 = tlc.cfg(constants=dict(consts, Mode=tlc.q("ddl"), MaxIdLens={lim(6), lim(30, 0, 6)}), invariants=["DdlBounded"])
     cfg4 = tlc.cfg(constants=dict(consts, Mode=tlc.q("stmt"), LabelLens={1}, MaxItems=1), invariants=["Bounded"])
     trace_path = os.path.join(chk.work, "traces.ndjson")
     ntraces = record_traces(chk, rng, 150 if chk.quick else 1500, trace_path)
